@@ -8,6 +8,7 @@ import (
 	"testing"
 	"time"
 
+	"github.com/oneconcern/datamon/cmd/datamon/cmd"
 	"github.com/oneconcern/datamon/pkg/core"
 	"github.com/oneconcern/datamon/pkg/model"
 
@@ -44,6 +45,9 @@ type params struct {
 	// Batch > 0: squash lists with core.BatchSize(Batch) (the CLI's --batch-size); pages of 1..4 keys put leftovers
 	// of interrupted uploads alone on a page in the middle of the history
 	Batch int `json:"batch_size,omitempty"`
+	// ViaContext: the squash goes through the per-repo callback of "datamon context squash" (flag values -> options),
+	// not through a direct call of core.RepoSquash
+	ViaContext bool `json:"via_context_squash_command,omitempty"`
 }
 
 var semverLabels = []string{"1.2.3", "v1.2.3", "2.0.0", "v0.1.0", "10.20.30"}
@@ -98,6 +102,10 @@ func gen10(seed int64, tier string) []drv.Case {
 		if r.Intn(3) == 0 {
 			p.Batch = []int{1, 1, 1, 2, 3, 4}[r.Intn(6)]
 			cls += "|small-pages"
+		}
+		if p.Fault == 0 && i%5 == 1 {
+			p.ViaContext = true
+			cls += "|context-squash-command"
 		}
 		cs = append(cs, drv.Case{ID: fmt.Sprintf("%s-%d", cls, i), Class: cls, Params: drv.MustJSON(p)})
 	}
@@ -321,7 +329,16 @@ func run10(c drv.Case, res *drv.Result) {
 			})
 		}
 	}
-	err = core.RepoSquash(env.Stores(actor), "r", opts...)
+	if p.ViaContext {
+		batch := p.Batch
+		if batch == 0 {
+			batch = 1024 // the flag's default
+		}
+		err = cmd.VerifContextSquash(env.Stores(actor), p.Tags == "all", p.Tags == "semver", p.RetainN, 500, batch)
+		res.Stat("squashes_through_the_context_command", 1)
+	} else {
+		err = core.RepoSquash(env.Stores(actor), "r", opts...)
+	}
 	if faultDesc != "" {
 		// whatever the squash reports under the fault, everything that had to be kept is still there: the descriptors
 		// of the bundles to keep and the labels pointing at them
